@@ -113,6 +113,17 @@ let () =
           | _ -> failwith "bg" in
       show (PM.display_only (ni id) (ni c0) (ni r0) (ni c1) (ni r1) (b fewer) bg (parse_pos pos) (b lf) (Stdlib.List.map ni (split ',' ph)))
     | _ -> "ERR args");
+  register "c13.get_formatting" (fun a -> match a with
+    | [bg] ->
+      let bg = if bg = "none" then PM.BgNoneStr else match String.split_on_char ':' bg with
+          | ["int"; n] -> PM.BgInt (ni n)
+          | ["rgb"; s] -> (match String.split_on_char ',' s with [r; g; bl] -> PM.BgColorStr (ni r, ni g, ni bl) | _ -> failwith "bg")
+          | _ -> failwith "bg" in
+      (match PM.get_formatting bg with
+       | PM.FNone -> "N"
+       | PM.FBytes bs -> "B:" ^ hex_of_bytes bs
+       | _ -> "other")
+    | _ -> "ERR args");
   register "c07.mode_constructible" (fun a -> bool_s (PM.mode_constructible (parse_m a)));
   (* W H x0 y0 onlcr hexbytes *)
   register "c07.render" (fun a -> match a with
